@@ -77,6 +77,7 @@ def confirm(pid, n):
 
 
 def check(sdir, checks):
+    sdir = os.path.abspath(sdir)
     meta_p = os.path.join(sdir, "meta.json")
     meta = json.load(open(meta_p))
     checks = checks or [meta["property"]]
